@@ -3,7 +3,7 @@
 //! `dispatch` returns `None` for a configuration the harness was not compiled with.
 
 use crate::driver::run_history;
-use crate::elem::{Nl, Pair, Var};
+use crate::elem::{Fu64, Nl, Pair, Var};
 use alloy_primitives::{U128, U256};
 use milhouse::update_map::MaxMap;
 use std::collections::BTreeMap;
@@ -97,6 +97,7 @@ kind_fn!(run_h256, Hash256;
 kind_fn!(run_pair, Pair;);
 kind_fn!(run_var, Var;);
 kind_fn!(run_nl, Nl;);
+kind_fn!(run_fu64, Fu64;);
 
 /// Run `ops` under configuration `(kind, n, map)`. Prints the `H` line itself (via `hdr`) once
 /// the configuration is known to be supported; returns `None` (nothing printed) otherwise.
@@ -119,6 +120,7 @@ pub fn dispatch(
         "pair" => run_pair(n, map, ops, out, hdr),
         "var" => run_var(n, map, ops, out, hdr),
         "nl" => run_nl(n, map, ops, out, hdr),
+        "fu64" => run_fu64(n, map, ops, out, hdr),
         _ => None,
     }
 }
